@@ -159,7 +159,7 @@ TOther ==
 TEnd ==
   /\ Is("End")
   /\ viol' = viol
-       \cup (IF E.ok /\ fin > 0 /\ lastf.t > 0 /\ lastf.f # lastf.t THEN {V("after a successful build the status line of the last command does not show finished = total")} ELSE {})
+       \cup (IF E.ok /\ ~E.pruned /\ fin > 0 /\ lastf.t > 0 /\ lastf.f # lastf.t THEN {V("after a successful build the status line of the last command does not show finished = total")} ELSE {})
        \cup (IF held # <<>> \/ locked THEN {V("output held back for a console command was never written")} ELSE {})
        \cup (IF \E r \in finished : r.out /\ <<"out", r.s>> \notin shown THEN {V("the output of a finished command was never shown")} ELSE {})
   /\ UNCHANGED <<meta, locked, held, shown, fin, lastf, started, finished, acc, stats>> /\ Step
